@@ -304,13 +304,16 @@ async fn iroh_ep(net: &SimNet, slot: u8, key: &SecretKey, serve: bool) -> Result
         .secret_key(key.clone())
         .relay_mode(RelayMode::Disabled)
         .clear_ip_transports()
+        .portmapper_config(iroh::endpoint::PortmapperConfig::Disabled)
         .dns_resolver(DnsResolver::custom(SimResolver::new(vec![], vec![], vec![])))
         .add_custom_transport(net.transport(slot))
         .address_lookup(net.lookup());
     if serve {
         b = b.alpns(vec![ALPN.to_vec()]);
     }
-    b.bind().await.map_err(|e| format!("bind failed: {e:#}"))
+    let ep = b.bind().await.map_err(|e| format!("bind failed: {e:#}"))?;
+    crate::fw::rt::settle_after_bind().await;
+    Ok(ep)
 }
 
 #[derive(Clone, Debug, Serialize, Deserialize, PartialEq)]
